@@ -8,9 +8,13 @@ Driver for C19.
      V     := `<int>` Integer | `f<int>` Number (integral float) | `b0`/`b1` Boolean | `s<text>` String
      name  := plain | `U.x` (field x of object U) | `~U.x` (the flat top-level key spelled `U.x`; Model.lookup: nested first)
      cond  := RPN joined by `_` : `L:<field>:<op>:<int|f<int>|b0|b1>` | `R:<field>:<op>:<text>` (string literal / field
-              reference) | `A` | `O` | `N` | `X`      acts := `-` | `field=int,…`
-     d<k>  := debug_mode of the calls (bit 0: the configured engine's calls, bit 1: the sequential engine's call) — the
-              model has no debug mode: the flag must not change anything
+              reference) | `E:<field>:<op>:<name|name+k|name-k|name*k>` (Value::Expression right-hand side) | `A` | `O` | `N` | `X`
+              op ∈ eq ne gt ge lt le ct nc sw ew mt in
+     acts  := `-` | item,…   item := `field=int` (Set) | mcall | log | retract | agenda | sched | wfdone | wfdata | append | custom
+     d<k>  := flags: bit 0/1 debug_mode of the configured / the sequential engine's calls; bit 2 the engines are built from
+              `ParallelConfig::default()` (with the case's max_threads; needs enabled=1, min_rules=2); bits 3-4 how the harness
+              builds the facts (add_value / set+set_nested / from_context / merge+snapshot+restore) — the model has none of
+              these: the flags must not change anything
      every further `<facts> <rules>` pair is one more *stage*: another knowledge base (same name) and other facts run
      through the SAME two engine objects, in order
   obs  := stage ` ;; ` stage …      stage := `S:<run> P:<run> P:<run> …`
@@ -77,7 +81,50 @@ def parseOp (s : String) : Option Op :=
   match s with
   | "eq" => some .eq | "ne" => some .ne | "gt" => some .gt
   | "ge" => some .ge | "lt" => some .lt | "le" => some .le
+  | "ct" => some .contains | "nc" => some .notContains | "sw" => some .startsWith
+  | "ew" => some .endsWith | "mt" => some .matches | "in" => some .isIn
   | _ => none
+
+/-- a field name as an expression atom: letters, digits and dots, starting with a letter, and not a spelling Rust's
+float parser accepts (`inf`, `nan`, `infinity`) -/
+def plainName (s : String) : Bool :=
+  let l := s.toList
+  (match l with | c :: _ => c.isAlpha | [] => false) && l.all (fun c => c.isAlphanum || c == '.')
+    && !(["inf", "infinity", "nan"].contains (String.ofList (l.map Char.toLower)))
+
+/-- the text of a `Value::Expression`: `name` | `name+k` | `name-k` | `name*k` (k ≤ 2^20, no sign) -/
+def parseRhs (t : String) : Option Rhs :=
+  let l := t.toList
+  let isOp := fun c => c == '+' || c == '-' || c == '*'
+  let name := String.ofList (l.takeWhile (fun c => !isOp c))
+  match l.dropWhile (fun c => !isOp c) with
+  | [] => if plainName name then some (.ref name) else none
+  | o :: ds =>
+    let ks := String.ofList ds
+    if !plainName name || ds.isEmpty || !ds.all Char.isDigit || ds.length > 7 then none else
+    match ks.toNat? with
+    | some k =>
+      if k > 1048576 then none else
+      some (.arith name (if o == '+' then .add else if o == '-' then .sub else .mul) k)
+    | none => none
+
+/-- the actions of a rule: `field=int` is `ActionType::Set`, a keyword one of the other kinds (all stubs in
+`execute_action_parallel`; `custom` = a `Custom` action whose function nobody registered) -/
+def parseActs (s : String) : Option (List Action) :=
+  if s = "-" then some [] else
+    (s.splitOn ",").mapM fun kv =>
+      match kv.splitOn "=" with
+      | [k, v] => v.toInt?.map fun i => Action.set k i
+      | ["mcall"] => some .methodCall
+      | ["log"] => some .log
+      | ["retract"] => some .retract
+      | ["agenda"] => some .activateAgendaGroup
+      | ["sched"] => some .scheduleRule
+      | ["wfdone"] => some .completeWorkflow
+      | ["wfdata"] => some .setWorkflowData
+      | ["append"] => some .append
+      | ["custom"] => some .customUnregistered
+      | _ => none
 
 def parseCond (s : String) : Option Cond :=
   let rec go (toks : List String) (st : List Cond) : Option Cond :=
@@ -93,6 +140,10 @@ def parseCond (s : String) : Option Cond :=
           match parseOp o, parseScalar v with
           | some o, some v => go rest (.leaf f o v :: st)
           | _, _ => none
+        | ["E", f, o, t] =>
+          match parseOp o, parseRhs t with
+          | some o, some r => go rest (.leafExpr f o r :: st)
+          | _, _ => none
         | ["R", f, o, g] =>
           match parseOp o with
           | some o => if validText g then go rest (.leafRef f o g :: st) else none
@@ -105,9 +156,8 @@ def parseRule (s : String) : Option CRule :=
   | [name, sal, en, cond, acts] => do
     let sal ← sal.toInt?
     let cond ← parseCond cond
-    let acts ← parseKV acts
-    pure { name := name, salience := sal, enabled := en = "1", cond := cond,
-           actions := acts.map fun (k, v) => Action.set k v }
+    let acts ← parseActs acts
+    pure { name := name, salience := sal, enabled := en = "1", cond := cond, actions := acts }
   | _ => none
 
 structure Stage where
@@ -119,6 +169,33 @@ structure Case where
   pseed : Nat
   debug : Nat
   stages : List Stage
+
+def condArith : Cond → Bool
+  | .leafExpr _ _ (.arith ..) => true
+  | .leaf .. => false
+  | .leafRef .. => false
+  | .leafExpr .. => false
+  | .and l r => condArith l || condArith r
+  | .or l r => condArith l || condArith r
+  | .not c => condArith c
+  | .xnot l r => condArith l || condArith r
+
+def condHas (p : Cond → Bool) : Cond → Bool
+  | .and l r => condHas p l || condHas p r
+  | .or l r => condHas p l || condHas p r
+  | .not c => condHas p c
+  | .xnot l r => condHas p l || condHas p r
+  | c => p c
+
+def isStrOp : Op → Bool
+  | .contains | .notContains | .startsWith | .endsWith | .matches | .isIn => true
+  | _ => false
+
+def leafOp? : Cond → Option Op
+  | .leaf _ o _ => some o
+  | .leafRef _ o _ => some o
+  | .leafExpr _ o _ => some o
+  | _ => none
 
 def parseStage (facts rules : String) : Option Stage := do
   let facts ← parseFacts facts
@@ -145,10 +222,18 @@ def parseCase (line : String) : Option Case :=
       | d :: more =>
         if d.startsWith "d" then
           match (d.drop 1).toString.toNat? with
-          | some k => if k < 4 then (parseStages more).map fun m => (k, m) else none
+          | some k => if k < 32 then (parseStages more).map fun m => (k, m) else none
           | none => none
         else none
-    pure { cfg := ⟨en = "1", mt, mr⟩, pseed := pseed, debug := dbg, stages := st0 :: more }
+    let c : Case := { cfg := ⟨en = "1", mt, mr⟩, pseed := pseed, debug := dbg, stages := st0 :: more }
+    -- bit 2 of the flags = `ParallelConfig::default()` (enabled, min_rules_per_thread 2) with the case's max_threads
+    if dbg / 4 % 2 = 1 && !(c.cfg.enabled && mr = 2) then none
+    -- arithmetic right-hand sides are computed in f64 by the engine: exact as long as the numbers stay small
+    else if c.stages.any (fun st => st.rules.any (fun r => condArith r.cond)) &&
+        c.stages.any (fun st => st.facts.any fun p => match p.2 with
+          | .int i => i.natAbs > 2147483648 | .num i => i.natAbs > 2147483648
+          | .str t => (match strNum? t with | some i => i.natAbs > 2147483648 | none => false) | .bool _ => false) then none
+    else pure c
   | _ => none
 
 def showPairs (ps : List (String × Bool)) : String :=
@@ -215,6 +300,7 @@ def condTyped : Cond → Bool
   | .leaf _ _ (.int _) => false
   | .leaf _ _ _ => true
   | .leafRef _ _ _ => false
+  | .leafExpr _ _ _ => false
   | .and l r => condTyped l || condTyped r
   | .or l r => condTyped l || condTyped r
   | .not c => condTyped c
@@ -289,6 +375,21 @@ def checkStage (cfg : Config) (st : Stage) (runs : List String) : Except String 
           let hasFired := sObs.ctxs.any (·.2)
           let hasUnfired := sObs.ctxs.any (fun p => !p.2)
           let firedWithActs := rules.any fun r => r.enabled && r.cond.eval facts && !r.actions.isEmpty
+          let en := rules.filter (·.enabled)
+          let exprRhs := en.any fun r => condHas (fun c => match c with | .leafExpr .. => true | _ => false) r.cond
+          -- an expression right-hand side whose evaluation fails (missing field / non-numeric operand): the fallback arm
+          let exprErr := en.any fun r => condHas (fun c => match c with
+            | .leafExpr _ _ rhs => (rhs.eval? facts).isNone | _ => false) r.cond
+          -- flat key first inside the expression evaluator, nested first outside: the two lookups disagree
+          let exprFlatFirst := en.any fun r => condHas (fun c => match c with
+            | .leafExpr _ _ (.ref n) => lookupFlatFirst facts n != lookup facts n
+            | .leafExpr _ _ (.arith n _ _) => lookupFlatFirst facts n != lookup facts n | _ => false) r.cond
+          let strOps := en.any fun r => condHas (fun c => match leafOp? c with | some o => isStrOp o | none => false) r.cond
+          let strOpTrue := en.any fun r => condHas (fun c => match leafOp? c with
+            | some o => isStrOp o && c.eval facts | none => false) r.cond
+          let otherActs := rules.any fun r => r.enabled && r.cond.eval facts &&
+            r.actions.any (fun a => match a with | .set .. => false | _ => true)
+          let deepPath := facts.any fun p => ((p.1.splitOn ".").length ≥ 3)
           let typed := rules.any (fun r => condTyped r.cond) ||
             facts.any (fun p => match p.2 with | .int _ => false | _ => true)
           -- flat top-level keys spelled like a dotted path (`~U.x`): present at all / together with the object field of
@@ -313,6 +414,13 @@ def checkStage (cfg : Config) (st : Stage) (runs : List String) : Except String 
             ++ (if firedWithActs then ["fired_with_assignments"] else [])
             ++ (if expectPanic then ["panic_max_threads_0"] else [])
             ++ (if typed then ["typed_values"] else [])
+            ++ (if exprRhs then ["expression_rhs"] else [])
+            ++ (if exprErr then ["expression_rhs_eval_fails"] else [])
+            ++ (if exprFlatFirst then ["expression_reads_flat_key_first"] else [])
+            ++ (if strOps then ["string_operators"] else [])
+            ++ (if strOpTrue then ["string_operator_true"] else [])
+            ++ (if otherActs then ["fired_with_non_assignment_actions"] else [])
+            ++ (if deepPath then ["nested_path_depth>=2"] else [])
             ++ (if lookalike then ["lookalike_constants_in_one_chunk"] else [])
             ++ (if multi && hasFired && hasUnfired then ["nontrivial"] else [])
 
@@ -350,7 +458,9 @@ def oracleLine (line : String) : String :=
           joinSp ("ok" :: tags
             ++ (if !c.cfg.enabled then ["parallelism_off"] else [])
             ++ (if c.debug % 2 = 1 then ["debug_mode"] else [])
-            ++ (if c.debug ≥ 2 then ["debug_mode_seq"] else [])
+            ++ (if c.debug / 2 % 2 = 1 then ["debug_mode_seq"] else [])
+            ++ (if c.debug / 4 % 2 = 1 then ["default_config"] else [])
+            ++ (if c.debug / 8 % 4 ≠ 0 then [s!"facts_built_mode{c.debug / 8 % 4}"] else [])
             ++ (if c.stages.length ≥ 2 then ["engine_reused_across_kbs"] else [])
             ++ (if rulesDiffer then ["reused_with_different_rules"] else [])
             ++ (if sameCount then ["reused_same_name_same_version"] else []))
